@@ -121,6 +121,12 @@ func c08PositionTable() []c08Pos {
 		{"filter-arg", func(e string) string { return "{{ nothing|default(" + e + ") }}" }, pr, "print "},
 		{"function-arg", func(e string) string { return "{{ vid(" + e + ") }}" }, pr, "print "},
 		{"macro-arg", func(e string) string { return "{% macro mq(p) %}{{ p }}{% endmacro %}{{ mq(" + e + ") }}" }, pr, "print "},
+		{"macro-arg-with-default", func(e string) string {
+			return "{% macro mq(p = 'DFLT', q = 7) %}{{ p }}{% endmacro %}{{ mq(" + e + ") }}"
+		}, pr, "print "},
+		{"macro-arg-second-with-default", func(e string) string {
+			return "{% macro mq(a, p = true) %}{{ p }}{% endmacro %}{{ mq(1, " + e + ") }}"
+		}, pr, "print "},
 		{"array-element", func(e string) string { return "{{ [" + e + "][0] }}" }, pr, "print "},
 		{"hash-value", func(e string) string { return "{{ {'k': " + e + " }['k'] }}" }, pr, "print "},
 	}
